@@ -3,7 +3,6 @@ package parser
 import (
 	"errors"
 	"fmt"
-	"strconv"
 	"strings"
 	"time"
 
@@ -170,7 +169,13 @@ func parseGroup(node *yaml.Node, schema Schema, offsetLine, offsetColumn int, co
 				}
 				return group
 			}
-			group.Limit, _ = strconv.Atoi(nodeValue(entry.val))
+			if err = entry.val.Decode(&group.Limit); err != nil {
+				group.Error = ParseError{
+					Line: entry.key.Line,
+					Err:  fmt.Errorf("group limit must be a %s, got %s", describeTag(intTag), nodeValue(entry.val)),
+				}
+				return group
+			}
 		case "labels":
 			if entry.val.ShortTag() != mapTag {
 				group.Error = ParseError{
